@@ -96,8 +96,9 @@ def confirm(report):
         route = None
         if 'witness' in vio and vio['witness'] and 'instruction' in vio['witness']:
             route = confirm_op
-        elif 'native' in vio:
-            route = vio['native']
+        elif 'spec' in vio and vio['spec'] is not None:
+            from . import natives
+            route = natives.confirm_structure
         if route is None:
             # no native route for this obligation kind: keep the solver counterexample itself as the replay artefact
             vio['replay'] = save_witness(report.pid, vio['key'], {'route': 'solver-model-only', 'what': vio['what'], 'detail': vio.get('detail')})
